@@ -7,8 +7,8 @@ MUTANTS = [
     dict(name="bytes-urlsafe-encode", file=CV, expect="R3.3",
          old='    return base64.b64encode(data).decode("utf-8")', new='    return base64.urlsafe_b64encode(data).decode("utf-8")'),
     dict(name="structure-reads-dump-map", file=CV, expect="R3.4",
-         old='            if hasattr(cls, "Meta") and hasattr(cls.Meta, "key_transform_with_load"):  # type: ignore[attr-defined]\n                mappings: dict[str, str] = cls.Meta.key_transform_with_load  # type: ignore[attr-defined]',
-         new='            if hasattr(cls, "Meta") and hasattr(cls.Meta, "key_transform_with_dump"):  # type: ignore[attr-defined]\n                mappings: dict[str, str] = cls.Meta.key_transform_with_dump  # type: ignore[attr-defined]'),
+         old='                mappings: dict[str, str] = _merged_meta_mappings(cls, "key_transform_with_load")',
+         new='                mappings: dict[str, str] = _merged_meta_mappings(cls, "key_transform_with_dump")'),
     dict(name="nested-registration-skips-wrappers", file=CV, expect="R3.5",
          old="    if isinstance(type_hint, type) and dataclasses.is_dataclass(type_hint):\n        registrar(type_hint, visited)\n        return",
          new="    if isinstance(type_hint, type) and dataclasses.is_dataclass(type_hint):\n        if [f.name for f in dataclasses.fields(type_hint)] != [\"_data\"]:\n            registrar(type_hint, visited)\n        return"),
